@@ -162,8 +162,15 @@ def compiled_contracts():
 
 
 WITNESSES = {
-    "all": [("[0, 0, 1].all(x, 1/x > 5)", False), ("[0, 1].all(x, 1/x > 5)", False), ("[1, 0, 0].all(x, 1/x > 5)", False)],
-    "exists": [("[0, 0, 1].exists(x, 1/x == 1)", True), ("[0, 1].exists(x, 1/x == 1)", True)],
+    "all": [("[0, 0, 1].all(x, 1/x > 5)", False), ("[0, 1].all(x, 1/x > 5)", False), ("[1, 0, 0].all(x, 1/x > 5)", False),
+            # a non-boolean outcome of every kind before / after the deciding element
+            ("[7, false].all(x, x)", False), ("[false, 7].all(x, x)", False), ("[0.5, false].all(x, x)", False), ("[7u, false].all(x, x)", False),
+            ("[[1], false].all(x, x)", False), ("[{1: 2}, false].all(x, x)", False), ("['s', false].all(x, x)", False), ("[null, false].all(x, x)", False),
+            ("[true, 7, false, 7].all(x, x)", False), ("[true, true].all(x, x)", True), ("[].all(x, x)", True)],
+    "exists": [("[0, 0, 1].exists(x, 1/x == 1)", True), ("[0, 1].exists(x, 1/x == 1)", True),
+               ("[7, true].exists(x, x)", True), ("[true, 7].exists(x, x)", True), ("[0.5, true].exists(x, x)", True), ("[7u, true].exists(x, x)", True),
+               ("[[1], true].exists(x, x)", True), ("[{1: 2}, true].exists(x, x)", True), ("['s', true].exists(x, x)", True), ("[null, true].exists(x, x)", True),
+               ("[false, 7, true, 7].exists(x, x)", True), ("[false, false].exists(x, x)", False), ("[].exists(x, x)", False)],
 }
 
 
